@@ -137,6 +137,48 @@ def judge_refusals(ctx, rule, inst, where_, extra, table, label, n=3, outside=Fa
             ctx.undecided(rule, inst, where_, 'a raise is guarded by %s: %s' % (txt, what))
 
 
+def interp_pairing(p, label, xname, fname):
+    """for every interpolation atom of ``p`` whose table runs over ``label``: the positions at which the abscissa reads the array ``xname`` and the
+    positions at which the ordinate reads ``fname`` (the running position, or the index of a gather).  -> None when they agree everywhere, else a pair of
+    descriptions (a table whose two columns are taken in different orders)"""
+    from ..knots import _all_atoms
+
+    def accesses(q, name):
+        out = set()
+        for a in _all_atoms(q):
+            if a[0] == 'fn' and a[1] == 'at' and len(a) == 4 and a[2][0] == 'B' and a[3][0] == 'P':
+                inner = Poly.from_key(a[2][2])
+                if any(b[0] == 'sym' and str(b[1]).split('@')[0] == name and a[2][1] in b[2] for b in _all_atoms(inner)):
+                    out.add(('at', a[3][1]))
+        # a direct (un-gathered) read: the symbol over the table's own label, outside any gather of it
+        def direct(q_, bound):
+            for a in q_.atoms():
+                if a[0] == 'sym' and str(a[1]).split('@')[0] == name and label in a[2] and not bound:
+                    return True
+                if a[0] == 'fn':
+                    for x in a[2:]:
+                        if x[0] == 'P' and direct(Poly.from_key(x[1]), bound):
+                            return True
+                        if x[0] == 'B' and direct(Poly.from_key(x[2]), bound or x[1] == label):
+                            return True
+                elif a[0] == 'pow' and direct(Poly.from_key(a[1]), bound):
+                    return True
+                elif a[0] in ('ind',) and direct(Poly.from_key(a[2]), bound):
+                    return True
+            return False
+        if direct(q, False):
+            out.add(('id',))
+        return out
+    for a in _all_atoms(p):
+        if a[0] == 'fn' and a[1] in ('interp', 'lininterp') and len(a) >= 5 and a[3][0] == 'B' and a[4][0] == 'B' and a[3][1] == label and a[4][1] == label:
+            ax, af = accesses(Poly.from_key(a[3][2]), xname), accesses(Poly.from_key(a[4][2]), fname)
+            if ax and af and ax != af:
+                def txt(s_):
+                    return ' / '.join('their own position' if x[0] == 'id' else 'position %s' % alg.show(Poly.from_key(x[1]), 50) for x in sorted(s_, key=str))
+                return txt(ax), txt(af)
+    return None
+
+
 def roundtrip_findings(ctx, h, fi, inst):
     """(UNIT-2) the clamp bound must reach the bounds-checked look-up without a unit round trip: table maximum -> request's unit (on assignment into the
     request) -> table's unit (.to before the look-up) does not return the same floating-point number, so a request beyond the table can land one ulp above
@@ -392,6 +434,11 @@ def check_variable(ctx, increasing=True):
                 ctx.violation('PERM-10', 'aperture(wavelength) interpolator', where_, 'np.interp needs an increasing abscissa but is given %s: the filter wavelengths in the order the user listed them, '
                               'so for filters not listed by increasing wavelength the aperture curve is wrong' % alg.show(xp, 120), 'unsorted-abscissa')
                 return
+        mis = interp_pairing(outv.poly, 'w', 'fw', 'q')
+        if mis:
+            ctx.violation('PERM-10', 'aperture(wavelength) interpolator', where_, 'the interpolation over the filters reads the wavelengths at %s and the apertures at %s: a filter\'s wavelength is '
+                          'paired with another filter\'s aperture unless the filters are listed by increasing wavelength' % mis, 'pairing')
+            return
         ks = sorted({c for c in alg.constants_in(outv.poly) if Fraction(99, 100) <= c < 1} | {Fraction(1), Fraction(999, 1000)}, reverse=True)
         hit = None
         for k in ks:
